@@ -12,7 +12,7 @@ from dataclasses import dataclass
 import numpy as np
 from hypothesis import strategies as st
 
-from vf import grids, tables
+from vf import forms, grids, tables
 from vf.core import Inadmissible, lib
 
 
@@ -31,6 +31,9 @@ def sim_case(
     cls = draw(st.sampled_from(list(classes)))
     nx = draw(st.one_of(st.integers(3, min(12, nx_max)), st.integers(3, nx_max), st.integers(3, nx_max).map(lambda v: v)))
     case = {"cls": cls, "nx": nx, "time": draw(grids.time_spec(max_steps, time_kinds))}
+    # the form in which the initial and frac-face pressures are handed to the wrapper / reservoir (whole-number
+    # pressures as Python or numpy ints, numpy float scalars, 0-d arrays): one case in three
+    case["scalar_form"] = draw(st.sampled_from(["float", "float", "float", "float", "int", "np.int64", "np.float64", "0d-float64"]))
     if cls == "ideal":
         pi = draw(st.floats(100.0, 15000.0))
         ratio = draw(st.one_of(st.floats(0.01, 0.99), st.floats(1.0, 5.0).map(lambda u: 1.0 - 10.0 ** (-u))))
@@ -93,20 +96,33 @@ class Run:
         return np.asarray(self.res.alpha_scaled(np.asarray(m, float)), float)
 
 
+def _formed_pair(case, p_f, p_i, lo, hi):
+    """(p_f, p_i, form): the pair as the generated scalar form can carry it (whole numbers for integer forms), or the
+    original pair with form 'float' when rounding would leave the table or close the drawdown."""
+    form = case.get("scalar_form", "float")
+    if form == "float":
+        return p_f, p_i, form
+    qf, qi = forms.representable(p_f, form), forms.representable(p_i, form)
+    if lo <= qf < qi <= hi and (qi - qf) >= 0.5 * (p_i - p_f):
+        return qf, qi, form
+    return p_f, p_i, "float"
+
+
 def build_fluid(case):
     """-> (tab, fluid, p_f, p_i) for table-based classes."""
     from bluebonnet.flow import FlowProperties
 
     tab = tables.build(case["table"])
     p_f, p_i = tables.resolve_pair(tab, case["pair"])
+    p_f, p_i, form = _formed_pair(case, p_f, p_i, float(tab["pressure"][0]), float(tab["pressure"][-1]))
     if case.get("rows") == "descending":
         given = {c: v[::-1].copy() for c, v in tab.items()}
         try:
-            fluid = FlowProperties(tables.as_container(given, case["container"]), p_i)
+            fluid = FlowProperties(tables.as_container(given, case["container"]), forms.scalar(p_i, form))
         except Exception as e:  # noqa: BLE001 - a wrapper may legitimately insist on increasing pressure
             raise Inadmissible(f"table with descending rows rejected by the wrapper ({type(e).__name__})") from e
         return tab, fluid, p_f, p_i
-    fluid = lib("FlowProperties", FlowProperties, tables.as_container(tab, case["container"]), p_i)
+    fluid = lib("FlowProperties", FlowProperties, tables.as_container(tab, case["container"]), forms.scalar(p_i, form))
     return tab, fluid, p_f, p_i
 
 
@@ -142,8 +158,8 @@ def run(case, simulate=True) -> Run:
     time = grids.build_time(case["time"])
     nx = case["nx"]
     if case["cls"] == "ideal":
-        p_f, p_i = case["p_f"], case["p_i"]
-        res = IdealReservoir(nx, p_f, p_i, None)
+        p_f, p_i, form = _formed_pair(case, case["p_f"], case["p_i"], 0.0, float("inf"))
+        res = IdealReservoir(nx, forms.scalar(p_f, form), forms.scalar(p_i, form), None)
         if simulate:
             lib("IdealReservoir.simulate", res.simulate, time)
         m = np.asarray(res.pseudopressure, float) if simulate else None
@@ -160,7 +176,8 @@ def run(case, simulate=True) -> Run:
         sched = None  # TwoPhaseReservoir.simulate takes no schedule
     else:
         tab, fluid, p_f, p_i = build_fluid(case)
-        res = SinglePhaseReservoir(nx, p_f, p_i, fluid)
+        form = case.get("scalar_form", "float") if forms.representable(p_i, case.get("scalar_form", "float")) == p_i and forms.representable(p_f, case.get("scalar_form", "float")) == p_f else "float"
+        res = SinglePhaseReservoir(nx, forms.scalar(p_f, form), forms.scalar(p_i, form), fluid)
         p_lo = float(tab["pressure"][0])
         sched = grids.build_schedule(case["schedule"], len(time), p_f, p_i, p_lo)
     if simulate:
@@ -178,7 +195,7 @@ def run(case, simulate=True) -> Run:
 
 
 def labels(case, r: Run | None = None):
-    out = {"cls": case["cls"], "grid": grids.grid_label(case["time"]), "nx": "3-12" if case["nx"] <= 12 else ("13-60" if case["nx"] <= 60 else ("61-150" if case["nx"] <= 150 else ">150"))}
+    out = {"cls": case["cls"], "scalar_form": case.get("scalar_form", "float"), "grid": grids.grid_label(case["time"]), "nx": "3-12" if case["nx"] <= 12 else ("13-60" if case["nx"] <= 60 else ("61-150" if case["nx"] <= 150 else ">150"))}
     if case["cls"] == "twophase":
         out["table"] = "shipped:oil+water (two-phase)"
     elif case["cls"] != "ideal":
